@@ -36,8 +36,73 @@ func aliasCols(r *rng) []colDesc {
 	return cols
 }
 
+// genTemplateFamilies: several templates alive together, some attached to others as sub-rows (WithRow) — before or
+// after either side got its columns — and builder calls on any of them afterwards. After every call the product of
+// EVERY template (a fresh CreateRowEmpty) is snapshotted: a builder call changes the product of the template it is
+// called on and of no other — a template does not change because one that was attached to it, or that it was
+// attached to, is extended later.
+//
+//	tfamily \t C15 \t <op> ; <op> ; … \t <products after op 1> ## <products after op 2> ## …     (products: <Val> ;; <Val> ;; …)
+//	ops: new | with <i> K:<hex> <format> | withrow <i> K:<hex> <j> | create <i> (a row made and imported into: nothing changes)
+func genTemplateFamilies(cw *caseWriter, r *rng, n int) {
+	names := []string{"a", "b", "p", "q", "late", "zz"}
+	for it := 0; it < n; it++ {
+		var ts []jsonline.Template
+		var ops, obs []string
+		snapshot := func() string {
+			parts := make([]string, len(ts))
+			for i, t := range ts {
+				var v string
+				if p := guard(func() { v = valStr(t.CreateRowEmpty()) }); p != "" {
+					v = "PANIC"
+				}
+				parts[i] = v
+			}
+			return strings.Join(parts, " ;; ")
+		}
+		steps := 3 + r.intn(10)
+		for s := 0; s < steps; s++ {
+			k := r.intn(8)
+			if len(ts) == 0 || (len(ts) < 3 && k == 0) {
+				ts = append(ts, jsonline.NewTemplate())
+				ops = append(ops, "new")
+				obs = append(obs, snapshot())
+				continue
+			}
+			i := r.intn(len(ts))
+			name := pick(r, names)
+			switch {
+			case k <= 3:
+				f := pick(r, fmtNames)
+				guard(func() { ts[i].With(name, formatByName[f], nil) })
+				ops = append(ops, fmt.Sprintf("with %d K:%s %s", i, hx([]byte(name)), f))
+			case k <= 5 && len(ts) >= 2:
+				j := r.intn(len(ts))
+				if j == i {
+					j = (i + 1) % len(ts)
+				}
+				guard(func() { ts[i].WithRow(name, ts[j]) })
+				ops = append(ops, fmt.Sprintf("withrow %d K:%s %d", i, hx([]byte(name)), j))
+			default:
+				guard(func() {
+					row := ts[i].CreateRowEmpty()
+					_ = row.ImportAtKey(name, 5)
+					_ = row.ImportAtPath(name+".late", "x")
+					row.Set("late", 1)
+				})
+				ops = append(ops, fmt.Sprintf("create %d", i))
+			}
+			obs = append(obs, snapshot())
+		}
+		key := strings.Join(ops, " ; ")
+		cw.count("tfamily")
+		cw.emit("tfamily "+key, true, "tfamily", "C15", key, strings.Join(obs, " ## "))
+	}
+}
+
 func genC15(cw *caseWriter, seed uint64, tier string) {
 	r := newRng(seed)
+	genTemplateFamilies(cw, newRng(seed+77), 150)
 	n := 600
 	if tier == "thorough" {
 		n = 20000
